@@ -31,6 +31,18 @@ STRENGTHENED = {
  "C19-7": "C19 del + rebinding to ANOTHER value, expected value tracked", "C19-8": "C19 shrunk-container constant kinds",
  "C20-8": "C20 evaluator-fed index (only top-level names ever get in)", "C20-9": "C20 completion after indentation",
  "C02-7": "C02 trees rebuilt by ast.Modify (delegated)", "C02-9": "C02 blocks beginning with a comment, compact (delegated, ported)", "C03-9": "C03 multi-line block comments at indent levels (delegated)",
+ # round 5
+ "C04-10": "C04 world sessions: wrappers of stdin / clock / random / file / image extensions in child processes", "C04-12": "C04 zero-sign twin argument lists never sampled out",
+ "C05-11": "interaction family O: code naming a register-held variable that outlives it (ported)", "C05-12": "interaction family N: int64 range ends under every changing operator",
+ "C06-10": "C06 (delegated, see section 10.12)", "C06-11": "C06 (delegated)", "C06-12": "C06 (delegated)", "C07-11": "C07 image histories: every shape drawn repeatedly",
+ "C08-12": "C08 layout worker: long blank runs / long tokens in every gap (delegated)", "C09-10": "C09 (delegated)", "C09-12": "C09 (delegated)",
+ "C10-10": "C10 parse-error failure kinds; a failing input that stops failing is a violation", "C10-11": "C10 deadline inside a pure recursive function + slowcall (ported)", "C10-12": "C10 break/continue reaching the end of a function, every failure kind x good kind",
+ "C11-10": "C11 keys(m) as an observation", "C11-12": "C11 numbers at both ends of the int64 range in the random universe (MapRep NumEnd)",
+ "C12-10": "C12 number notations (delegated)", "C12-11": "C12 operands in another call's frame (delegated)", "C12-12": "C12 containers grown across the size threshold (delegated)",
+ "C14-10": "C14 (delegated)", "C14-11": "C14 (delegated)", "C15-10": "C15 (delegated)", "C16-11": "C16 interning across evaluator activity", "C18-10": "C18 (delegated)",
+ "C19-10": "void on the final head (constant check is Identical since f12fe7e); C19 near-equal replacements cover the shape", "C19-12": "C19 ConstNames.tla: which names are constants",
+ "C20-10": "C20 recorded definitions (Record action), leak into new indexes probed (delegated)", "C20-12": "C20 wide nodes: all 256 byte values under one node (delegated)",
+ "C02-11": "C02 (delegated)", "C03-10": "C03 (delegated)",
  "C13-7": "C13 argument pairs that print alike in compact form (delegated)", "C14-7": "C14 print -> modify existing element -> save again (delegated)", "C14-8": "C02 dot floats at statement boundaries (delegated)", "C14-9": "C02 source-level return/newline family (delegated)",
 }
 rows = []
